@@ -55,6 +55,9 @@ def requests_for(r, group, n, dbg, storages=("o",), norm="valid", ops=None):
             mask = (moff + k) % MASKS.get(op, 1)      # every output combination as soon as n allows
             if op == "generator":
                 i = r.randint(-3, gen.GROUPS[group]["dof"] + 3)
+                if k % 3 == 2:      # far out-of-range indices that alias an in-range one modulo a power of two / the DoF
+                    dof = gen.GROUPS[group]["dof"]
+                    i = i % dof + (16, 32, -16, 256, 65536, dof, 2 * dof, -dof, 48, -256)[(k // 3 + moff) % 10]
                 out.append((gen.req(dbg, st, group, op, 0, [], [i]), [op, "mask0", st, "idx:%d" % i]))
                 continue
             if op == "element":
